@@ -263,7 +263,7 @@ func readerTable(w *core.World) (map[string]*readerCase, *core.FuncInfo) {
 }
 
 func checkC08(r *core.Run) {
-	r.Explain = "Decided statically by table extraction and constant evaluation: (C08.codes) every JDBC code the image builder can emit (MySQLStrToJavaType ∘ MySQLCodeToJava over its type strings, minus JDBCTypeOther) has a case in ColumnImage.UnmarshalJSON; (C08.kinds) per type string the Go kind produced by the row scanner, the JSON shape encoding/json gives it (time.Time special-cased by MarshalJSON) and what the reader's case asserts and undoes agree: no assertion on a dynamic type encoding/json never produces, no reader transform without its inverse on the writer side or vice versa, no 64-bit integer decoded through float64; (C08.pair) Compress is reached from the flush path iff Decompress is reached from the undo path, under the same context key constant; the serializer name is written and read under one key; every UndoLogParser.Decode restores kinds by type code; (C08.registry) each compressor's GetCompressorType equals the case label returning it, unknown spellings map to the identity compressor; (C08.nopanic) the parser used on the decode path is assigned on every path before its Decode is called. NOT decided: the actual value round trip, the compression libraries, thresholds."
+	r.Explain = "Decided statically by table extraction and constant evaluation: (C08.codes) every JDBC code the image builder can emit (MySQLStrToJavaType ∘ MySQLCodeToJava over its type strings, minus JDBCTypeOther) has a case in ColumnImage.UnmarshalJSON; (C08.kinds) per type string the Go kind produced by the row scanner, the JSON shape encoding/json gives it (time.Time special-cased by MarshalJSON) and what the reader's case asserts and undoes agree: no assertion on a dynamic type encoding/json never produces, no reader transform without its inverse on the writer side or vice versa, no 64-bit integer decoded through float64; (C08.pair) Compress is reached from the flush path iff Decompress is reached from the undo path, under the same context key constant; the serializer name is written and read under one key; every UndoLogParser.Decode restores kinds by type code; (C08.registry) each compressor's GetCompressorType equals the case label returning it, unknown spellings map to the identity compressor; (C08.nopanic) the parser used on the decode path is assigned on every path before its Decode is called. (C08.stream) in every Compressor implementation a stream writer wrapped around the output buffer is closed (not merely deferred) before the buffer's bytes are taken, and Compress returns its input unchanged on some path only if Decompress returns its input unchanged on every path. NOT decided: the actual value round trip, the compression libraries, thresholds."
 	r.Trusted = []string{"go/types", "encoding/json's mapping of Go kinds to JSON and back into interface{} (bool, float64, string, []interface{}, map[string]interface{})", "compression libraries"}
 	w := r.W
 	jd, ok := jdbcOf(w)
@@ -382,10 +382,12 @@ func checkC08(r *core.Run) {
 	}
 	c08Pair(r)
 	c08Registry(r)
+	c08Stream(r)
 	r.Floor("C08.codes", 28)
 	r.Floor("C08.kinds", 40)
 	r.Floor("C08.pair", 5)
 	r.Floor("C08.registry", 7)
+	r.Floor("C08.stream", 10)
 }
 
 func isCompressorMethod(w *core.World, f *types.Func, name string) bool {
@@ -654,5 +656,137 @@ func c08Registry(r *core.Run) {
 			// constants without a case fall to the default (identity) on both sides: consistent, recorded as discharged
 			r.OK("C08.registry", "pkg/compressor.(CompressorType).GetCompressor "+c.Name()+" falls to the identity default", w.Pos(get.Decl.Pos()), "no case: identity on both the write and the read side")
 		}
+	}
+}
+
+// c08Stream: per Compressor implementation,
+//   - a stream writer (a value with Write and Close created around &buf) is closed before buf.Bytes() is taken:
+//     the trailer that ends the stream is written by Close, and a deferred Close runs after the result was read;
+//   - Compress hands back its own input on some path only when Decompress is the identity as well: raw bytes
+//     stored under a compress type are fed to the real decompressor on rollback.
+func c08Stream(r *core.Run) {
+	w := r.W
+	ci := w.Interface("pkg/compressor", "Compressor")
+	if ci == nil {
+		r.Anchor("C08.stream", nil, "compressor.Compressor")
+		return
+	}
+	for _, n := range w.Implementers(ci) {
+		if w.IsTestFile(n.Obj().Pos()) || strings.Contains(n.Obj().Pkg().Path(), "mock") {
+			continue
+		}
+		comp, decomp := methodInfo(w, n, "Compress"), methodInfo(w, n, "Decompress")
+		if comp == nil || decomp == nil {
+			continue
+		}
+		r.Fn(comp)
+		r.Fn(decomp)
+		name := core.ShortKey(comp.Obj)
+		info := comp.Pkg.TypesInfo
+		// stream writers: locals with Write+Close defined by a call that receives &<bytes.Buffer local>
+		writers := map[types.Object]types.Object{} // writer var -> buffer var
+		ast.Inspect(comp.Decl.Body, func(nd ast.Node) bool {
+			var lhs []ast.Expr
+			var rhs []ast.Expr
+			switch x := nd.(type) {
+			case *ast.AssignStmt:
+				lhs, rhs = x.Lhs, x.Rhs
+			case *ast.ValueSpec:
+				for _, nm := range x.Names {
+					lhs = append(lhs, nm)
+				}
+				rhs = x.Values
+			}
+			if len(rhs) != 1 || len(lhs) == 0 {
+				return true
+			}
+			call, ok := ast.Unparen(rhs[0]).(*ast.CallExpr)
+			if !ok {
+				return true
+			}
+			var buf types.Object
+			for _, a := range call.Args {
+				if u, ok := ast.Unparen(a).(*ast.UnaryExpr); ok && u.Op == token.AND {
+					if o := core.ObjOf(info, u.X); o != nil && strings.HasSuffix(o.Type().String(), "bytes.Buffer") {
+						buf = o
+					}
+				}
+			}
+			wv := core.ObjOf(info, lhs[0])
+			if buf == nil || wv == nil {
+				return true
+			}
+			ms := types.NewMethodSet(wv.Type())
+			if ms.Lookup(nil, "Close") != nil && ms.Lookup(nil, "Write") != nil {
+				writers[wv] = buf
+			}
+			return true
+		})
+		if len(writers) > 0 {
+			sp := &flow.Spec{W: w, Depth: 0,
+				Classify: func(pkg *packages.Package, call *ast.CallExpr, callee *types.Func) []flow.Tag {
+					sel, ok := ast.Unparen(call.Fun).(*ast.SelectorExpr)
+					if !ok || callee == nil {
+						return nil
+					}
+					o := core.ObjOf(pkg.TypesInfo, sel.X)
+					if _, isW := writers[o]; isW && callee.Name() == "Close" {
+						return []flow.Tag{"close"}
+					}
+					for _, b := range writers {
+						if o == b && (callee.Name() == "Bytes" || callee.Name() == "String") {
+							return []flow.Tag{"bytes"}
+						}
+					}
+					return nil
+				}}
+			res := sp.Analyze(comp)
+			n := 0
+			for _, cp := range res.Calls {
+				if !inSet("bytes", cp.Tags...) {
+					continue
+				}
+				n++
+				r.Sites++
+				r.Check(cp.Before.Has("close"), "C08.stream", name+" stream closed before its bytes are taken", w.Pos(cp.Call.Pos()), "Close precedes Bytes on every path",
+					"the compressed bytes are taken before the stream writer is closed (a deferred Close runs after the result was read): the stream lacks its end marker and Decompress fails with unexpected EOF on every rollback under this compress type")
+			}
+			if n == 0 {
+				r.Undecided("C08.stream", name+" stream closed before its bytes are taken", w.Pos(comp.Decl.Pos()), "a stream writer is created but the result is not taken with Bytes() of its buffer")
+			}
+		} else {
+			r.OK("C08.stream", name+" uses no stream writer", w.Pos(comp.Decl.Pos()), "block API")
+		}
+		// identity paths
+		ident := func(f *core.FuncInfo) (some, all bool) {
+			ps := paramObjs(f)
+			all = true
+			cnt := 0
+			ast.Inspect(f.Decl.Body, func(nd ast.Node) bool {
+				if _, ok := nd.(*ast.FuncLit); ok {
+					return false
+				}
+				rs, ok := nd.(*ast.ReturnStmt)
+				if !ok || len(rs.Results) == 0 {
+					return true
+				}
+				cnt++
+				if len(ps) > 0 && isObj(f.Pkg.TypesInfo, rs.Results[0], ps[0]) {
+					some = true
+				} else {
+					all = false
+				}
+				return true
+			})
+			if cnt == 0 {
+				all = false
+			}
+			return
+		}
+		cs, _ := ident(comp)
+		_, da := ident(decomp)
+		r.Sites++
+		r.Check(!cs || da, "C08.stream", name+" passes its input through only if Decompress is the identity", w.Pos(comp.Decl.Pos()), "no raw pass-through under a real decompressor",
+			"Compress returns its input unchanged on some path while Decompress always decodes: the context still names this compress type, so rollback feeds raw bytes to the decompressor and fails")
 	}
 }
